@@ -5,9 +5,9 @@
    (PathMatcher, SmarterPathSplitter), Res/Replacement.v (replacement.Filter).
    External behaviour enters as parameters: [parse] (regexp.Compile: pattern text -> AST),
    [lsel] (k8s label selectors), [enc] (go-yaml emitter), [cluster_scoped] (openapi). *)
-From KV Require Import Base.Regex Base.RegexProofs Yaml.Match Yaml.MatchProofs Yaml.MatchTotalProofs
+From KV Require Import Base.Regex Base.RegexProofs Yaml.Match Yaml.MatchProofs Yaml.MatchTotalProofs Yaml.MatchCreateProofs Yaml.MatchFrameProofs
   Res.Image Res.ImageProofs Res.ImageNormProofs Res.Selector Res.SelectorProofs Res.Replica Res.ReplicaProofs
-  Res.Replacement Res.ReplacementProofs.
+  Res.Replacement Res.ReplacementProofs Res.ReplacementFrameProofs.
 
 (* ------------------------------------------------------------------ regular expressions *)
 
@@ -202,22 +202,46 @@ Theorem C10_replacement_rejected_untouched :
 Proof. exact rejected_not_wanted. Qed.
 Print Assumptions C10_replacement_rejected_untouched.
 
-(* Field level, PARTIAL: proved for one field path without options.create (with create the matcher
-   itself extends the document; covered by the correspondence only).  The matcher does not modify
-   the target, finds at least one field, and the result differs from the target only at addresses
-   comparable with (at, below or above) a returned address.
-   Full statement: the same for every list of field paths and with create. *)
-Theorem C10_replacement_fields_exact_partial :
-  forall parse enc nonstr fuel (opts : option field_options) (live : option addr) (value : node) (fp : string)
-         (n n' : node) (st : node * option addr),
-    create_kind opts value = None ->
-    copy_value_to_target parse enc nonstr fuel opts live value [fp] n = Ok (n', st) ->
-    exists hits,
-      pm parse enc nonstr None fuel (smarter_path_splitter "."%char fp) n = Ok (n, hits) /\
-      hits <> [] /\
-      forall a, (forall h, In (HAt h) hits -> comparable a h = false) -> get_at a n' = get_at a n.
-Proof. exact copy_value_exact. Qed.
-Print Assumptions C10_replacement_fields_exact_partial.
+(* Field level, for ANY number of field paths and with or without options.create: whatever the
+   target held at an address that is not comparable with (at, above or below) an address the matcher
+   returned for one of the paths is still there afterwards — existing content outside the selected
+   fields is neither changed nor removed (with create the matcher may add new nodes next to it).
+   [copy_hits] lists the returned addresses path by path (each path is matched on the document as the
+   previous paths left it).  Hypothesis: no field path has an empty part (a.."b": Go's Get("") then
+   overwrites the node it stands on). *)
+Theorem C10_replacement_fields_exact :
+  forall parse enc nonstr fuel (fps : list string) (opts : option field_options) (live : option addr)
+         (value n n' : node) (st : node * option addr),
+    paths_no_empty fps = true ->
+    copy_value_to_target parse enc nonstr fuel opts live value fps n = Ok (n', st) ->
+    forall a x, get_at a n = Some x ->
+      (forall h, In h (copy_hits parse enc nonstr fuel opts live value fps n) -> comparable a h = false) ->
+      get_at a n' = Some x.
+Proof. exact copy_value_keeps. Qed.
+Print Assumptions C10_replacement_fields_exact.
+
+(* ... the same for one target selector applied to one resource of the list (selected or not) *)
+Theorem C10_replacement_target_fields_exact :
+  forall parse enc nonstr fuel lsel (vs : vstate) (ts : target_selector) (sel : selector) (i : nat)
+         (n n' : node) (vs' : vstate),
+    paths_no_empty (target_field_paths ts) = true ->
+    apply_target_to_node parse enc nonstr lsel fuel vs ts sel i n = Ok (n', vs') ->
+    forall a x, get_at a n = Some x ->
+      (forall h, In h (node_hits parse enc nonstr fuel vs ts i n) -> comparable a h = false) ->
+      get_at a n' = Some x.
+Proof. exact apply_node_keeps. Qed.
+Print Assumptions C10_replacement_target_fields_exact.
+
+(* every returned field receives set_field_value of the value (private copy of the value,
+   returned addresses that do not overlap) *)
+Theorem C10_replacement_written_all :
+  forall (opts : option field_options) (value : node) (hits : list hit) (n n' : node) (st : node * option addr),
+    write_hits opts None value hits n = Ok (n', st) ->
+    pairwise_incomparable (at_addrs hits) = true ->
+    forall h x, In (HAt h) hits -> get_at h n = Some x ->
+      exists x', set_field_value opts value x = Ok x' /\ get_at h n' = Some x'.
+Proof. exact write_hits_all. Qed.
+Print Assumptions C10_replacement_written_all.
 
 (* the value written at a (single) returned field is what setFieldValue makes of the old node ... *)
 Theorem C10_replacement_written_value :
@@ -290,23 +314,46 @@ Theorem C10_match_terminates_refuted :
 Proof. exact match_diverges_lemma. Qed.
 Print Assumptions C10_match_terminates_refuted.
 
-(* PARTIAL: without Create the matcher always returns (one unit of fuel is enough) and never
-   modifies the document.  Full statement: it returns for every Create kind. *)
+(* without Create the matcher always returns (one unit of fuel is enough) and never modifies the
+   document; with Create see C10_match_create_total (kept under its old name) *)
 Theorem C10_match_total_partial :
   forall parse enc nonstr fuel (path : list string) (n : node),
     pm parse enc nonstr None (S fuel) path n <> Diverge.
 Proof. exact pm_nocreate_total. Qed.
 Print Assumptions C10_match_total_partial.
 
-(* PARTIAL, with Create: for paths of the usual replacement shape — any parts, then at most one list
-   selector, then only non-empty field names — PathMatcher returns (two units of fuel suffice)
+(* With Create, EVERY path shape and every document: PathMatcher returns (two units of fuel suffice)
    provided every list selector value, compiled, matches the text of the scalar holding it. *)
-Theorem C10_match_create_total_partial :
+Theorem C10_match_create_total :
   forall parse enc nonstr (k : kind) fuel (path : list string),
-    sel_then_fields path = true -> self_matching parse enc path ->
+    self_matching parse enc path ->
     forall n, pm parse enc nonstr (Some k) (S (S fuel)) path n <> Diverge.
-Proof. exact pm_create_total. Qed.
-Print Assumptions C10_match_create_total_partial.
+Proof. exact pm_create_total_general. Qed.
+Print Assumptions C10_match_create_total.
+
+(* the invariant behind it: started on created material (no sequence, no null) or on a fresh empty
+   sequence entered by an index / list selector, Create-mode matching never answers "nothing" *)
+Theorem C10_match_create_not_nothing :
+  forall parse enc nonstr (k : kind) fuel (path : list string) (n : node),
+    ok_start path n -> forall x, pm parse enc nonstr (Some k) fuel path n <> Ok (x, []).
+Proof. exact create_not_nothing. Qed.
+Print Assumptions C10_match_create_not_nothing.
+
+(* Create only adds: existing content at an address not comparable with a returned address is kept;
+   and when no node of the document is returned the document is unchanged *)
+Theorem C10_match_create_keeps :
+  forall parse enc nonstr (k : kind) fuel (path : list string) (n n' : node) (hits : list hit),
+    no_empty path = true -> pm parse enc nonstr (Some k) fuel path n = Ok (n', hits) ->
+    forall a x, get_at a n = Some x -> (forall h, In (HAt h) hits -> comparable a h = false) -> get_at a n' = Some x.
+Proof. exact create_keeps. Qed.
+Print Assumptions C10_match_create_keeps.
+
+Theorem C10_match_create_same :
+  forall parse enc nonstr (k : kind) fuel (path : list string) (n n' : node) (hits : list hit),
+    no_empty path = true -> pm parse enc nonstr (Some k) fuel path n = Ok (n', hits) ->
+    (forall a, ~ In (HAt a) hits) -> n' = n.
+Proof. exact create_same. Qed.
+Print Assumptions C10_match_create_same.
 
 Theorem C10_match_nocreate_pure :
   forall parse enc nonstr fuel (path : list string) (n n' : node) (hits : list hit),
